@@ -253,6 +253,33 @@ Check C07_identity_formatter : forall c psort pcmp esort ecmp d,
   std_ws fixed c psort esort (Some (pure_fmt fmt_id)) (ltree_of l1) = Ok (ltree_of l1).
 Print Assumptions C07_identity_formatter.
 
+(* ... and so does every formatter that absorbs the re-layout (same output when its own output comes
+   back with a blank or a line break in front; never starts with one), with comparators on names:
+   the Uploaders formatter of format_field (split at ',', trim, join with ",\n") is one *)
+Theorem C07_absorbing_formatter_idem : forall c psort pcmp esort ecmp g d,
+  ind_ok c = true -> pcmp_agrees psort pcmp -> ecmp_agrees esort ecmp -> wf_doc d = true ->
+  doc_shaped (Some g) (lift d) -> absorbing g -> no_lead g ->
+  pair_cmp_consistent ecmp -> para_cmp_consistent pcmp ->
+  match ecmp with Some e => forall a b a' b', fst a = fst a' -> fst b = fst b' -> e a b = e a' b' | None => True end ->
+  pcmp_invariant_on pcmp ecmp (Some g) (lift d) ->
+  let l1 := a_ws_doc pcmp (a_ws_items c ecmp (Some g)) (lift d) in
+  std_ws fixed c psort esort (Some (pure_fmt g)) (ltree_of l1) = Ok (ltree_of l1).
+Proof. exact absorbing_idem_proof. Qed.
+Check C07_absorbing_formatter_idem : forall c psort pcmp esort ecmp g d,
+  ind_ok c = true -> pcmp_agrees psort pcmp -> ecmp_agrees esort ecmp -> wf_doc d = true ->
+  doc_shaped (Some g) (lift d) -> absorbing g -> no_lead g ->
+  pair_cmp_consistent ecmp -> para_cmp_consistent pcmp ->
+  match ecmp with Some e => forall a b a' b', fst a = fst a' -> fst b = fst b' -> e a b = e a' b' | None => True end ->
+  pcmp_invariant_on pcmp ecmp (Some g) (lift d) ->
+  let l1 := a_ws_doc pcmp (a_ws_items c ecmp (Some g)) (lift d) in
+  std_ws fixed c psort esort (Some (pure_fmt g)) (ltree_of l1) = Ok (ltree_of l1).
+Print Assumptions C07_absorbing_formatter_idem.
+
+Theorem C07_uploaders_absorbing : absorbing (fun _ v => fmt_uploaders v) /\ no_lead (fun _ v => fmt_uploaders v).
+Proof. exact (conj uploaders_absorbing uploaders_no_lead). Qed.
+Check C07_uploaders_absorbing : absorbing (fun _ v => fmt_uploaders v) /\ no_lead (fun _ v => fmt_uploaders v).
+Print Assumptions C07_uploaders_absorbing.
+
 (* a shaped output lexes (line by line) to the tokens of the value it is read as *)
 Theorem C07_formatter_tokens : forall w first conts,
   ws_ok w = true -> first_ok first = true -> forallb canon_cont conts = true ->
